@@ -11,6 +11,7 @@ C. code->spec: random streams (late, duplicate, out-of-order, very old, future t
    random tick interleavings, MAX_AGGREGATION_INTERVALS / WRITE_BACK_FREQUENCY / FORWARD_ALL /
    name cache varied; Aggregator_Trace.tla re-synchronises on the observed buffers and judges the
    observed emissions (values 4^id under 'sum' make the aggregated ids decodable).
+F. the rules file edited while series have live buffers: later values are aggregated by the edited rule.
 E. the whole processing pipeline as carbon.service.setupPipeline installs it (rewrite:pre, aggregate,
    rewrite:post, relay / write; generated datapoints): Pipeline.tla - closed-form promises checked by TLC
    against the recursive run_pipeline, recorded cases of the real pipeline judged by the same module.
@@ -175,7 +176,68 @@ def run(ctx):
   ctx.evaluations += ctx.pick(300, 5000)
   for b in bad[:5]:
     ctx.violation(WHAT['numeric'], dict(method=b[0], values=b[1], got=b[2], expected=b[3]), signature='numeric')
+  reload_section(ctx, am)
   pipeline_section(ctx)
+
+
+def reload_section(ctx, am):
+  """F. the aggregation rules file is edited while series have live buffers: what is emitted afterwards follows the
+  rules in force when the values arrived (method, frequency and target of the edited rule)."""
+  import os
+  rng = ctx.rng
+  methods = ['sum', 'avg', 'min', 'max', 'count']
+  for k in range(ctx.pick(12, 120)):
+    F = rng.choice([2, 5, 10])
+    cfg = dict(F=F, M=5, WB=0, forward_all=False)
+    run = aggsys.AggRun(am, cfg)
+    run.build()
+    try:
+      rm = am.rules.RuleManager
+      m1, m2 = rng.sample(methods, 2)
+      F2 = F if rng.random() < 0.6 else rng.choice([2, 5, 10])
+      target2 = 'out' if rng.random() < 0.6 else 'agg2'
+
+      def write(method, freq, target, mtime):
+        with open(rm.rules_file, 'w') as fh:
+          fh.write('%s.<srv> (%d) = %s in.<srv>.*\n' % (target, freq, method))
+        os.utime(rm.rules_file, (mtime, mtime))
+      write(m1, F, 'out', 1000.0)
+      rm.rules_last_read = 0.0
+      rm.read_rules()
+      now = int(run.ftime.now)
+      base = now - now % F
+      vals1 = [float(rng.randint(1, 9)) for _ in range(rng.randint(1, 3))]
+      for v in vals1:
+        list(run.proc.process('in.s1.h0', (base + rng.randint(0, F - 1), v)))
+      if rng.random() < 0.5:
+        for _ in range(F):
+          run.tick()                      # the first interval has been emitted before the edit
+      write(m2, F2, target2, 2000.0)       # the edit (a preserved, older-than-now modification time)
+      rm.read_rules()
+      now = int(run.ftime.now)
+      base2 = now - now % F2
+      vals2 = [float(rng.randint(1, 9)) for _ in range(rng.randint(1, 4))]
+      for v in vals2:
+        list(run.proc.process('in.s1.h1', (base2 + rng.randint(0, F2 - 1), v)))
+      got = []
+      for _ in range(3 * max(F, F2) + 2):
+        run.emitted = []
+        run.ftime.now += 1
+        run.clock.advance(1)
+        got += [(m, dp) for m, dp in run.emitted if dp[0] == base2 and m == '%s.s1' % target2]
+      ref = dict(sum=sum(vals2), avg=sum(vals2) / len(vals2), min=min(vals2), max=max(vals2), count=float(len(vals2)))[m2]
+      ctx.evaluations += 1
+      ctx.traces += 1
+      ctx.nontriv(('reload', k))
+      ok = got and abs(got[-1][1][1] - ref) < 1e-9
+      if not ok:
+        ctx.violation('after the aggregation rules file was edited (%s every %d s -> %s every %d s into %s.<srv>) the values received under the '
+                      'new rule were not aggregated by it: expected %s.s1 = %r for interval %d, emitted %r'
+                      % (m1, F, m2, F2, target2, target2, ref, base2, got), dict(before=[m1, F, 'out'], after=[m2, F2, target2], values_before=vals1,
+                                                                               values_after=vals2, emitted=repr(got)), signature='reload')
+    finally:
+      run.teardown()
+  ctx.cov['rules_reload_cases'] = ctx.pick(12, 120)
 
 
 def pipeline_section(ctx):
